@@ -27,7 +27,14 @@ sys.meta_path.insert(0, Blocker())
 def main():
     inp = json.load(sys.stdin)
     out = dict(config=present, import_errors={}, modules=0)
-    import pyscsi
+    try:
+        import pyscsi
+    except Exception as e:  # noqa — the package itself does not import in this configuration: that is the finding, not a driver failure
+        out["import_errors"]["pyscsi"] = "%s: %s" % (type(e).__name__, e)
+        out["results"] = []
+        out["digest_error"] = "the package does not import"
+        print(json.dumps(out))
+        return
     for m in pkgutil.walk_packages(pyscsi.__path__, "pyscsi."):
         try:
             importlib.import_module(m.name)
